@@ -4,6 +4,7 @@ import GaleneVerif.Engine.PacketMap
 import GaleneVerif.Engine.Codecs
 import GaleneVerif.Engine.Down
 import GaleneVerif.Engine.UpE2E
+import GaleneVerif.Engine.Token
 /-
 Line-protocol driver.  usage: driver <engine> [oracle-only] < trace
 `oracle-only` (failing-input search): model/impl mismatches do not end the case;
@@ -73,7 +74,8 @@ def engines : List (String × EngineDef) :=
     ("pmap", Galene.Engine.PacketMap.engine),
     ("codecs", Galene.Engine.Codecs.engine),
     ("down", Galene.Engine.Down.engine),
-    ("upe2e", Galene.Engine.UpE2E.engine) ]
+    ("upe2e", Galene.Engine.UpE2E.engine),
+    ("token", Galene.Engine.Token.engine) ]
 
 def main (args : List String) : IO UInt32 := do
   let (name?, oracleOnly) := match args with
